@@ -101,23 +101,19 @@ Theorem C08_call_on_object : forall p r sq fdef fname bc cargs p',
            (S (S f)) (Some (VObj (S f)))).
 Proof. intros p r sq fdef fname bc cargs p' HB HI. exact (callobj_spec p r sq fdef fname bc cargs p' HB HI). Qed.
 
-(* insert_magic_int at the default position or at any index 0 <= i <= len: the rewritten program
-   runs to EXACTLY the same final state as the original, from any state *)
+(* insert_magic_int at ANY index (default -1, any other negative index, any non-negative index, out of
+   range ones clamped as Python does): the rewritten program runs to EXACTLY the same final state as
+   the original, from any state.  (Before the repo fix for C08-F2 a negative index other than -1 put POP
+   after the following opcode; the model follows the repaired code.) *)
 Theorem C08_magic_int : forall magic index p s p',
-  (index = (-1)%Z /\ p <> []) \/ (0 <= index <= Z.of_nat (List.length p))%Z ->
   inject (MMagic magic index) p = Ok p' ->
   vrun_from p' s = vrun_from p s.
-Proof. intros magic index p s p' R H. injection H as <-. apply magic_run_same. exact R. Qed.
+Proof. intros magic index p s p' H. injection H as <-. apply magic_run_same. Qed.
 
-(* ...but not at a negative index other than -1 (C08-F2): INT lands before the last value, POP after it *)
-Theorem C08_magic_negative_index_refuted : exists p r sq p' v,
-  base_run p = Some (r, sq) /\ inject (MMagic 5 (-2)) p = Ok p' /\
-  vrun_from p' vm_init = Ok v /\ vstopped v = Some (VConst (CInt 5)) /\ r = VConst (CInt 1).
-Proof.
-  exists [OConst (CInt 1); OStop]. do 4 eexists.
-  split; [vm_compute; reflexivity|]. split; [vm_compute; reflexivity|].
-  split; [vm_compute; reflexivity|]. split; reflexivity.
-Qed.
+(* regression witness of C08-F2: index -2 on `1 .` now leaves the result alone *)
+Example C08_magic_negative_index_fixed :
+  inject (MMagic 5 (-2)) [OConst (CInt 1); OStop] = Ok [OConst (CInt 5); OPop; OConst (CInt 1); OStop].
+Proof. vm_compute. reflexivity. Qed.
 
 (* ---- non-vacuity: a framed base with its own call, shared reference and sparse memo keys that
    collide with every fixed key of the injector ---- *)
@@ -211,6 +207,5 @@ Print Assumptions C08_append.
 Print Assumptions C08_append_nopop_stack_refuted.
 Print Assumptions C08_call_on_object.
 Print Assumptions C08_magic_int.
-Print Assumptions C08_magic_negative_index_refuted.
 Print Assumptions C08_never_likely_safe_nonstd.
 Print Assumptions C08_never_likely_safe_builtin_partial.
